@@ -2,6 +2,7 @@ package props
 
 import (
 	"fmt"
+	"github.com/nspcc-dev/neo-go/pkg/neotest"
 	"testing"
 
 	"pgregory.net/rapid"
@@ -22,7 +23,7 @@ func detBytes(label string, n int) []byte {
 func TestC04Stateful(t *testing.T) {
 	theT = t
 	col := ev.New("C04", "stateful",
-		"rapid state machine over put/putNamed/put(meta)/delete/setEACL on 3 owners and a pool of 18 blobs (version-field offsets 0,1,5,69,200; 6 of them end with the owner field or one byte after it; names from a 3-name pool, several blobs share a name; in half of the cases the alias domain of one name is registered by the committee in advance instead of by the contract), incl. re-put of a live container, delete of a missing one, put after delete, name reuse after deletion, too short blobs, invalid names, calls without the Alphabet and a jump of ten years (alias domains expire; named containers keep working and must still be deletable completely); after every step the whole read API, NNS TXT records of every alias domain, the raw storage traces and the notifications of the transaction are compared with a registry model; non-trivial = a delete followed by a later operation on the same id or the same name",
+		"rapid state machine over put/putNamed/put(meta)/delete/setEACL on 3 owners and a pool of 18 blobs (version-field offsets 0,1,5,69,200; 6 of them end with the owner field or one byte after it; names from a 3-name pool, several blobs share a name; in half of the cases the alias domain of one name is registered by the committee in advance instead of by the contract), incl. re-put of a live container, delete of a missing one, put after delete, name reuse after deletion, too short blobs, invalid names, a name whose domain belongs to a third party, calls without the Alphabet and a jump of ten years (alias domains expire; named containers keep working and must still be deletable completely); after every step the whole read API, NNS TXT records of every alias domain, the raw storage traces and the notifications of the transaction are compared with a registry model; non-trivial = a delete followed by a later operation on the same id or the same name",
 		"fees are 0 (money is C05)", "a container's name and owner are functions of its blob (the Inner Ring derives them from the blob)", "alias domains are registered by the Container contract itself or, for one name, by the committee in advance (its transactions then carry the committee witness too)")
 	runRapid(t, col, func(rt *rapid.T, h *ev.History) {
 		n := rapid.SampledFrom([]int{1, 1, 3}).Draw(rt, "n")
@@ -46,6 +47,10 @@ func TestC04Stateful(t *testing.T) {
 		// the documented alternative to self-registration: the committee registers the alias domain in advance
 		// (no records yet); transactions that touch it carry the committee's witness as well, because the
 		// domain's records are then the committee's to change
+		// a domain of the alias zone that belongs to somebody else: never usable as a container name
+		if o := w.c.Invoke([]neotest.Signer{w.owners[2]}, w.nns, "register", "squatted.container", w.owners[2].ScriptHash(), "ops@nspcc.ru", int64(3600), int64(600), int64(315360000), int64(3600)); !o.Halt {
+			panic(chainkit.HarnessError{Msg: "c04: registration of squatted.container: " + o.String()})
+		}
 		preGamma := rapid.Bool().Draw(rt, "gammaPreRegisteredByCommittee")
 		if preGamma {
 			o := w.c.Invoke(w.c.Both(), w.nns, "register", "gamma.container", w.c.Committee.ScriptHash(), "ops@nspcc.ru", int64(3600), int64(600), int64(315360000), int64(3600))
@@ -162,7 +167,7 @@ func TestC04Stateful(t *testing.T) {
 					h.Op("put of a too short blob -> %s", o)
 				} else {
 					b := w.mkBlob(1, 0, 98, "")
-					bad := rapid.SampledFrom([]string{"Bad_Name", "-x", "x-", "a..b", "UPPER"}).Draw(rt, "badName")
+					bad := rapid.SampledFrom([]string{"Bad_Name", "-x", "x-", "a..b", "UPPER", "squatted"}).Draw(rt, "badName")
 					o = w.c.Invoke(w.alpha, w.cnt, "putNamed", b.value, detBytes("s", 64), detBytes("p", 33), []byte{}, bad, "")
 					h.Op("putNamed with invalid name %q -> %s", bad, o)
 				}
